@@ -114,30 +114,39 @@ static void rules_family(vf::Ctx& ctx, const Fac& fac)
         Snapshot s = snapshot(*es, (long) es->compute(fac.select_rules()[0], 50, T(1e-9), fac.sort_rules()[0]));
         if (!(s == ref)) ctx.violation(std::string(FAMILY[d.family]) + "/solver-differs-from-fresh-after-rejected-" + after, vf::J().kv("solver", FAMILY[d.family]).kv("rejected", what).kv("differs_in", ref.diff(s)).str());
     };
+    // the rule is validated in whatever state the object is: directly after init(), after a compute() that converged (no init() in between: the
+    // factorization is complete and the Ritz pairs are there), after one that ran out of iterations
+    static const char* STATE[] = {"after-init", "after-a-converged-compute", "after-a-compute-that-did-not-converge"};
+    for (int st = 0; st < 3; st++)
     for (int i = 0; i < 9; i++)
     {
         const SortRule r = ALL_RULES[i];
+        auto prepare = [&]() {
+            es->init();
+            if (st == 1) { const long got = (long) es->compute(fac.select_rules()[0], 500, T(1e-6), fac.sort_rules()[0]); ctx.count(got == d.nev ? "rule_state/converged-compute-before" : "rule_state/wanted-converged-but-was-not"); }
+            if (st == 2) { (void) es->compute(fac.select_rules()[0], 1, T(1e-14), fac.sort_rules()[0]); ctx.count("rule_state/unconverged-compute-before"); }
+        };
         // as selection
         {
             std::string other;
-            es->init();
+            prepare();
             const size_t b0 = heap_bytes();
             const int out = classify([&]() { es->compute(r, 5, T(1e-8), fac.sort_rules()[0]); }, other);
             const bool ok = in(fac.select_rules(), r);
             ctx.count("rule_calls");
-            if (ok && out != 0) ctx.violation(std::string(FAMILY[d.family]) + "/supported-selection-rejected", vf::J().kv("rule", rule_name(r)).kv("other", other).str());
-            if (!ok && out != 1) ctx.violation(std::string(FAMILY[d.family]) + (out == 0 ? "/unsupported-selection-accepted" : "/unsupported-selection-wrong-exception-type"), vf::J().kv("rule", rule_name(r)).kv("other", other).str());
+            if (ok && out != 0) ctx.violation(std::string(FAMILY[d.family]) + "/supported-selection-rejected", vf::J().kv("rule", rule_name(r)).kv("state", STATE[st]).kv("other", other).str());
+            if (!ok && out != 1) ctx.violation(std::string(FAMILY[d.family]) + (out == 0 ? "/unsupported-selection-accepted" : "/unsupported-selection-wrong-exception-type"), vf::J().kv("rule", rule_name(r)).kv("state", STATE[st]).kv("other", other).str());
             if (!ok && out == 1) { (void) b0; same_as_fresh("compute", std::string("selection=") + rule_name(r)); }
         }
         // as sorting
         {
             std::string other;
-            es->init();
+            prepare();
             const int out = classify([&]() { es->compute(fac.select_rules()[0], 5, T(1e-8), r); }, other);
             const bool ok = in(fac.sort_rules(), r);
             ctx.count("rule_calls");
-            if (ok && out != 0) ctx.violation(std::string(FAMILY[d.family]) + "/supported-sorting-rejected", vf::J().kv("rule", rule_name(r)).kv("other", other).str());
-            if (!ok && out != 1) ctx.violation(std::string(FAMILY[d.family]) + (out == 0 ? "/unsupported-sorting-accepted" : "/unsupported-sorting-wrong-exception-type"), vf::J().kv("rule", rule_name(r)).kv("other", other).str());
+            if (ok && out != 0) ctx.violation(std::string(FAMILY[d.family]) + "/supported-sorting-rejected", vf::J().kv("rule", rule_name(r)).kv("state", STATE[st]).kv("other", other).str());
+            if (!ok && out != 1) ctx.violation(std::string(FAMILY[d.family]) + (out == 0 ? "/unsupported-sorting-accepted" : "/unsupported-sorting-wrong-exception-type"), vf::J().kv("rule", rule_name(r)).kv("state", STATE[st]).kv("other", other).str());
             if (!ok && out == 1) same_as_fresh("compute", std::string("sorting=") + rule_name(r));
         }
     }
@@ -154,7 +163,7 @@ static void rules_family(vf::Ctx& ctx, const Fac& fac)
         (void) b0;
         same_as_fresh("init", "zero start vector");
     }
-    ctx.count("evals", 21);
+    ctx.count("evals", 57);
 }
 #endif
 
